@@ -72,6 +72,12 @@ pub struct GenCfg {
     pub big_ints: bool,
     pub unicode: bool,
     pub aliasing: bool,
+    // Sizes beyond the small scope: long lists / strings / loops / names,
+    // deeper recursion, non-boundary big integers.
+    pub big: bool,
+    // Spell U+0080..U+00FF as `\xHH` now and then (only for checks whose
+    // oracle does not depend on what such an escape denotes).
+    pub hex_latin: bool,
 }
 
 impl GenCfg {
@@ -81,13 +87,20 @@ impl GenCfg {
             w_decl: 10, w_assign: 6, w_print: 12, w_if: 5, w_while: 3, w_for: 4,
             w_block: 2, w_fn: 4, w_call: 5, w_destructure: 3, w_elem_assign: 4,
             w_jump: 3, w_method: 2, w_closure: 2, w_idiom: 6, shadow: 25, interp: true, big_ints: false,
-            unicode: true, aliasing: true,
+            unicode: true, aliasing: true, big: false, hex_latin: false,
         }
     }
     pub fn hostile() -> GenCfg {
         let mut c = GenCfg::balanced();
         c.sloppy = 25;
         c.big_ints = true;
+        c.hex_latin = true;
+        c
+    }
+    pub fn big() -> GenCfg {
+        let mut c = GenCfg::balanced();
+        c.big = true;
+        c.max_top = 20;
         c
     }
     pub fn small() -> GenCfg {
@@ -113,7 +126,64 @@ pub struct Gen<'a> {
 }
 
 const KEYS: [&str; 8] = ["a", "b", "k", "n", "tag", "x", "y", "zz"];
-const WORDS: [&str; 13] = ["", "a", "b", "ab", "hello", "x y", "é", "日本", "🙂!", "line\nbreak", "q\"uote", "back\\slash", "$5 ${k}"];
+// The last three hold characters whose code point ends in the byte of a
+// structural ASCII character (`{ } " \ $ newline`): U+017B, U+017D, U+0122,
+// U+015C, U+0124, U+010A, U+1F37B, U+1F37D.
+const WORDS: [&str; 16] = ["", "a", "b", "ab", "hello", "x y", "é", "日本", "🙂!", "line\nbreak", "q\"uote", "back\\slash", "$5 ${k}", "ŻaŽ", "ĢŜĤĊ", "🍻🍽"];
+
+// Integer operands for arithmetic beyond the classic boundaries: 32-bit
+// magnitudes (whose products straddle 2^63), small multipliers, random widths.
+pub fn arith_operand(t: &mut Tape) -> i64 {
+    match t.pick(9) {
+        0 => ((t.raw() as i64) << 48) | ((t.raw() as i64) << 32) | ((t.raw() as i64) << 16) | t.raw() as i64,
+        1 => {
+            let k = t.pick(63) as u32;
+            let v = (1i64 << k).wrapping_add(t.range(-2, 2));
+            if t.chance(1, 2) { v.wrapping_neg() } else { v }
+        },
+        2 => {
+            let v = 3037000499i64 + t.range(-3, 3);
+            if t.chance(1, 2) { -v } else { v }
+        },
+        3 => t.range(-20, 20),
+        4 => if t.chance(1, 2) { i64::MAX - t.range(0, 3) } else { i64::MIN + t.range(0, 3) },
+        5 => ((t.raw() as i64) << 16 | t.raw() as i64) - (1 << 31),
+        6 => {
+            // Magnitude in 2^31 .. 2^32.
+            let v = (1i64 << 31) | ((t.raw() as i64 & 0x7fff) << 16) | t.raw() as i64;
+            if t.chance(1, 3) { -v } else { v }
+        },
+        7 => {
+            let v = t.range(2, 5000);
+            if t.chance(1, 4) { -v } else { v }
+        },
+        _ => {
+            // A random bit width.
+            let k = 1 + t.pick(62) as u32;
+            let full = ((t.raw() as i64) << 48) | ((t.raw() as i64) << 32) | ((t.raw() as i64) << 16) | t.raw() as i64;
+            let v = (full & ((1i64 << k) - 1)) | (1i64 << (k - 1));
+            if t.chance(1, 3) { -v } else { v }
+        },
+    }
+}
+
+pub fn arith_pair(t: &mut Tape) -> (i64, i64) {
+    let a = arith_operand(t);
+    let b = match t.pick(6) {
+        0 | 1 if a != 0 && a != -1 => {
+            // A divisor-shaped partner: the product lands within |a| of the
+            // limit on either side.
+            let lim = if t.chance(1, 4) { i64::MIN } else { i64::MAX };
+            (lim / a).wrapping_add(t.range(-1, 2))
+        },
+        2 if (1i64 << 31..1i64 << 32).contains(&a.abs()) => {
+            let v = (1i64 << 31) | ((t.raw() as i64 & 0x7fff) << 16) | t.raw() as i64;
+            if t.chance(1, 3) { -v } else { v }
+        },
+        _ => arith_operand(t),
+    };
+    (a, b)
+}
 
 pub fn gen_prog(t: &mut Tape, cfg: &GenCfg) -> Prog {
     let mut g = Gen{
@@ -134,6 +204,9 @@ pub fn gen_prog(t: &mut Tape, cfg: &GenCfg) -> Prog {
 impl Gen<'_> {
     fn fresh(&mut self, prefix: &str) -> String {
         self.fresh += 1;
+        if self.cfg.big && self.fresh % 7 == 3 {
+            return format!("{prefix}_a_rather_long_identifier_with_many_parts_{}", self.fresh);
+        }
         format!("{prefix}{}", self.fresh)
     }
 
@@ -172,7 +245,10 @@ impl Gen<'_> {
             2 => Ty::Str,
             3 => {
                 let e = self.small_ty(depth - 1);
-                let n = self.t.pick(4);
+                let mut n = self.t.pick(4);
+                if self.cfg.big && e == Ty::Int && self.t.chance(1, 3) {
+                    n = [17, 21, 32, 33, 64, 65, 100][self.t.pick(7)];
+                }
                 Ty::List(Box::new(e), n)
             },
             _ => {
@@ -198,6 +274,11 @@ impl Gen<'_> {
             let big = [i64::MAX, i64::MAX - 1, -i64::MAX, 1 << 62, 3037000500, -3037000500, 1 << 32, (1 << 31) - 1, 4611686018427387904, 0];
             return int(big[self.t.pick(big.len())]);
         }
+        if self.cfg.big && self.t.chance(1, 5) {
+            let odd = [1000003i64, 65536, 65537, 4294967297, 1234567890123, 99999, 100000, 255, 256, 257, 1024, 123456789, 9007199254740993, 16777217];
+            let v = odd[self.t.pick(odd.len())];
+            return int(if self.t.chance(1, 4) { -v } else { v });
+        }
         let v = self.t.range(0, 12) - 2;
         if self.t.chance(1, 12) {
             let mag = v.unsigned_abs();
@@ -207,6 +288,13 @@ impl Gen<'_> {
     }
 
     fn str_lit(&mut self) -> Expr {
+        if self.cfg.big && self.t.chance(1, 6) {
+            let unit = ["abcdefghij", "0123456789", "é日x ", "ab\ncd", "-"][self.t.pick(5)];
+            let reps = [13, 26, 40, 100][self.t.pick(4)];
+            let mut e = string(&unit.repeat(reps));
+            self.respell(&mut e);
+            return e;
+        }
         let n = if self.cfg.unicode { WORDS.len() } else { 6 };
         let w = WORDS[self.t.pick(n)];
         let mut e = string(w);
@@ -219,7 +307,34 @@ impl Gen<'_> {
                 }
             }
         }
+        self.respell(&mut e);
         e
+    }
+
+    // A line break written as itself inside the literal; U+0080..U+00FF as
+    // `\xHH` where the configuration allows it.
+    fn respell(&mut self, e: &mut Expr) {
+        let raw_nl = self.t.chance(1, 3);
+        let latin = self.cfg.hex_latin && self.t.chance(1, 3);
+        let each = |cs: &mut Vec<(char, Spell)>| {
+            for c in cs.iter_mut() {
+                if c.0 == '\n' && raw_nl {
+                    c.1 = Spell::Raw;
+                }
+                if latin && (0x80..0x100).contains(&(c.0 as u32)) {
+                    c.1 = Spell::HexLatin;
+                }
+            }
+        };
+        match &mut e.k {
+            EK::Str(cs) => each(cs),
+            EK::Interp(parts) => for p in parts.iter_mut() {
+                if let StrPart::Text(cs) = p {
+                    each(cs);
+                }
+            },
+            _ => {},
+        }
     }
 
     // A deliberately wrong or random-typed expression.
@@ -397,7 +512,9 @@ impl Gen<'_> {
                 }
                 let w = WORDS[self.t.pick(6)];
                 parts.push(StrPart::Text(w.chars().map(|c| (c, natural_spell(c))).collect()));
-                ex(EK::Interp(parts))
+                let mut e = ex(EK::Interp(parts));
+                self.respell(&mut e);
+                e
             },
             3 => {
                 let ty = self.small_ty(1);
@@ -638,14 +755,67 @@ impl Gen<'_> {
     // Compositions that individual statement kinds rarely produce by chance.
     fn idiom(&mut self, out: &mut Vec<Stmt>) {
         let d = self.cfg.expr_depth;
-        match self.t.pick(11) {
+        match self.t.pick(14) {
+            12 => {
+                // Arithmetic on operands away from the classic boundaries.
+                let (a, b) = arith_pair(self.t);
+                // The minimum has no literal; it is written as an expression.
+                let int = |v: i64| if v == i64::MIN { paren(bin(Op::Sub, int(-i64::MAX), int(1))) } else { int(v) };
+                let op = [Op::Mul, Op::Mul, Op::Mul, Op::Sum, Op::Sub, Op::Div, Op::Mod][self.t.pick(7)];
+                let v = self.fresh("n");
+                match self.t.pick(3) {
+                    0 => {
+                        out.push(print(bin(op, int(a), int(b))));
+                    },
+                    1 => {
+                        out.push(declare(var(&v), int(a)));
+                        self.declare(&v, Ty::Int, true);
+                        out.push(print(bin(op, var(&v), int(b))));
+                    },
+                    _ => {
+                        out.push(declare(var(&v), int(a)));
+                        self.declare(&v, Ty::Int, true);
+                        out.push(op_assign(var(&v), op, int(b)));
+                        out.push(print(var(&v)));
+                    },
+                }
+            },
+            13 => {
+                // Methods read off their objects, kept in lists that are then
+                // concatenated, sliced and copied before the calls.
+                let o1 = self.fresh("ob");
+                let o2 = self.fresh("ob");
+                let ms = self.fresh("ms");
+                let who = func(vec![], false, vec![ret(prop(var("this"), "tag"))]);
+                out.push(declare(var(&o1), obj(vec![pair("tag", string("p")), pair("who", who.clone())])));
+                out.push(declare(var(&o2), obj(vec![pair("tag", string("q")), pair("who", who)])));
+                self.declare(&o1, Ty::Opaque, false);
+                self.declare(&o2, Ty::Opaque, false);
+                let l1 = list(vec![prop(var(&o1), "who")]);
+                let l2 = list(vec![prop(var(&o2), "who"), prop(var(&o1), "who")]);
+                let built = match self.t.pick(5) {
+                    0 => bin(Op::Sum, l1, l2),
+                    1 => list_items(vec![spread(l1), spread(l2)], false),
+                    2 => range_index(bin(Op::Sum, l1, l2), Some(int(0)), None),
+                    3 => bin(Op::Sum, bin(Op::Sum, list(vec![]), l1), l2),
+                    _ => bin(Op::Sum, l2, l1),
+                };
+                out.push(declare(var(&ms), built));
+                self.declare(&ms, Ty::Opaque, false);
+                if self.t.chance(1, 2) {
+                    out.push(op_assign(var(&ms), Op::Sum, list(vec![prop(var(&o2), "who")])));
+                }
+                for i in 0..3 {
+                    out.push(print(call(index(var(&ms), int(i)), vec![])));
+                }
+            },
             0 | 1 => {
                 // Closures created in a loop body over a body-level variable,
                 // kept outside the loop and called afterwards.
                 let fs = self.fresh("fs");
                 out.push(declare(var(&fs), list(vec![])));
                 self.declare(&fs, Ty::Opaque, false);
-                let n = self.t.range(2, 3);
+                let n = if self.cfg.big && self.t.chance(1, 2) { [17, 20, 33, 34, 64, 65, 70, 100][self.t.pick(8)] } else { self.t.range(2, 3) };
                 let v = self.fresh("w");
                 let k = self.t.range(1, 9);
                 let step = self.t.range(1, 3);
@@ -848,7 +1018,8 @@ impl Gen<'_> {
                 ];
                 out.push(fn_decl(&f, vec![var(&p)], false, body));
                 self.declare(&f, Ty::Opaque, false);
-                out.push(print(call(var(&f), vec![int(self.t.range(0, 5))])));
+                let fuel = if self.cfg.big && self.fn_depth == 0 { self.t.range(8, 15) } else { self.t.range(0, 5) };
+                out.push(print(call(var(&f), vec![int(fuel)])));
             },
             8 => {
                 // Object shorthand: `{a, "k": v, c}` from variables in scope,
@@ -893,6 +1064,37 @@ impl Gen<'_> {
                 let y = self.t.range(0, 5);
                 out.push(print(call(var(&ap), vec![var(&g), int(y)])));
                 out.push(print(call(var(&ap), vec![func(vec![var("ax")], false, vec![ret(bin(Op::Sum, var("ax"), int(k)))]), int(y)])));
+            },
+            10 => {
+                // An object (and a list) grown well beyond the small scope,
+                // then read, iterated, compared and destructured.
+                let o = self.fresh("many");
+                let xs = self.fresh("longl");
+                let n = if self.cfg.big { [17, 21, 33, 40, 64][self.t.pick(5)] } else { 6 };
+                let abc = "qwertyuiopasdfghjklzxcvbnmQWERTYUIOPASDFGHJKLZXCVBNM0123456789_-+";
+                out.push(declare(var(&o), obj(vec![])));
+                out.push(declare(var(&xs), list(vec![])));
+                let i = self.fresh("gi");
+                out.push(for_(list(vec![var("_"), var(&i)]), range(int(0), int(n)), vec![
+                    assign(index(var(&o), range_index(string(abc), Some(var(&i)), Some(bin(Op::Sum, var(&i), int(2))))), bin(Op::Mul, var(&i), var(&i))),
+                    op_assign(var(&xs), Op::Sum, list(vec![bin(Op::Sub, int(n), var(&i))])),
+                ]));
+                self.declare(&o, Ty::Opaque, false);
+                self.declare(&xs, Ty::List(Box::new(Ty::Int), n as usize), true);
+                out.push(print(var(&o)));
+                let k = self.t.pick(n as usize) as i64;
+                out.push(print(index(var(&o), string(&abc[k as usize..k as usize + 2]))));
+                out.push(print(index(var(&xs), int(n - 1))));
+                out.push(print(range_index(var(&xs), Some(int(n - 3)), None)));
+                out.push(declare(list_items(vec![item(var("_")), item(var("_")), item(var(&format!("{xs}_rest")))], true), var(&xs)));
+                self.declare(&format!("{xs}_rest"), Ty::List(Box::new(Ty::Int), n as usize - 2), true);
+                out.push(print(bin(Op::Eq, bin(Op::Sum, range_index(var(&xs), None, Some(int(2))), var(&format!("{xs}_rest"))), var(&xs))));
+                out.push(print(bin(Op::Eq, obj(vec![Prop::Single{e: var(&o), spread: true, collect: false}]), var(&o))));
+                let cnt = self.fresh("cnt");
+                out.push(declare(var(&cnt), int(0)));
+                self.declare(&cnt, Ty::Int, true);
+                out.push(for_(list(vec![var("_"), var("_")]), var(&o), vec![op_assign(var(&cnt), Op::Sum, int(1))]));
+                out.push(print(var(&cnt)));
             },
             _ => {
                 // A function that assigns to its parameter and mutates the
@@ -1030,7 +1232,10 @@ impl Gen<'_> {
                 // Counter loop; the counter is advanced first so that
                 // `continue` cannot skip it, and the body cannot assign it.
                 let i = self.fresh("i");
-                let n = self.t.range(0, 4);
+                let mut n = self.t.range(0, 4);
+                if self.cfg.big && self.loop_depth == 0 && self.t.chance(1, 3) {
+                    n = [17, 23, 33, 40, 64, 65, 100][self.t.pick(7)];
+                }
                 out.push(declare(var(&i), int(0)));
                 self.declare(&i, Ty::Int, false);
                 let mut b = vec![op_assign(var(&i), Op::Sum, int(1))];
